@@ -371,7 +371,22 @@ func genCommand(t *rapid.T, keys *[]string) string {
 		}
 		return strings.Join(toks, " ")
 	default:
-		return rapid.StringMatching(`[ -~]{0,40}`).Draw(t, "garbage")
+		// what is not a command at all: printable garbage, raw bytes, lines longer than the admin port's 1024-byte read,
+		// near-miss spellings of the command words (the port dispatches on prefixes: add*, del*, mod*, view*, help*)
+		switch rapid.IntRange(0, 3).Draw(t, "garbagekind") {
+		case 0:
+			return rapid.StringMatching(`[ -~]{0,40}`).Draw(t, "garbage")
+		case 1:
+			return "!admin " + hex.EncodeToString(rapid.SliceOfN(rapid.Byte(), 1, 80).Draw(t, "rawbytes"))
+		case 2:
+			head := rapid.SampledFrom([]string{"addBlack prefix ", "addRoute sendAllMatch long  ", "view ", "addAgg sum regex=", "modRoute ", ""}).Draw(t, "longhead")
+			fill := rapid.SampledFrom([]string{"x", " ", "a ", "=", "  "}).Draw(t, "longfill")
+			n := rapid.SampledFrom([]int{1000, 1023, 1024, 1025, 2500}).Draw(t, "longlen")
+			return "!admin " + hex.EncodeToString([]byte(head+strings.Repeat(fill, n/len(fill))+"\n"))
+		default:
+			return "!admin " + hex.EncodeToString([]byte(rapid.SampledFrom([]string{"viewx\n", "view 1\n", "view\r\n", "helpme\n", "additional\n", "add\n", "delete everything\n", "mod\n", "modx y z\n",
+				"addBlack\tprefix\tfoo\n", " addBlack prefix foo\n", "addBlack prefix foo\naddBlack prefix bar\n", "\x00\n", "\xff\xfe\n", "view\x00\n", "ADDBLACK prefix foo\n"}).Draw(t, "nearmiss")))
+		}
 	}
 }
 
